@@ -238,11 +238,12 @@ Definition ext_agree (exact : bool) (a b : ext) : bool :=
   | _, _ => false
   end.
 
-(* the first n entries exactly, the remaining ones (intensity levels computed in floating point) closely *)
-Fixpoint agree_vec {A : Type} (eq_exact eq_close : A -> A -> bool) (n : nat) (a b : list A) : bool :=
+(* entry i exactly when `exact i`, otherwise closely (values the implementation computes in floating point:
+   the intensity entries vmax - vmin, vmin - vrng, 3 * vrng and the default width np.mean(discretization)) *)
+Fixpoint agree_vec {A : Type} (eq_exact eq_close : A -> A -> bool) (exact : nat -> bool) (i : nat) (a b : list A) : bool :=
   match a, b with
   | [], [] => true
-  | x :: a', y :: b' => (match n with O => eq_close x y | S _ => eq_exact x y end) && agree_vec eq_exact eq_close (pred n) a' b'
+  | x :: a', y :: b' => (if exact i then eq_exact x y else eq_close x y) && agree_vec eq_exact eq_close exact (S i) a' b'
   | _, _ => false
   end.
 
@@ -272,7 +273,7 @@ Fixpoint pos_agree (cs : list nat) (i : nat) (a b : list Q) : bool :=
 
 Definition droplet_agree (cs : list nat) (m r : droplet) : bool :=
   rclass_eqb (d_cls m) (d_cls r) && pos_agree cs 0 (d_pos m) (d_pos r) && Qeq_bool (d_rad m) (d_rad r)
-  && opt_agree (d_width m) (d_width r) && agree_vec Qeq_bool Qeq_bool 0 (d_amp m) (d_amp r).
+  && opt_agree (d_width m) (d_width r) && agree_vec Qeq_bool Qeq_bool (fun _ => true) 0 (d_amp m) (d_amp r).
 
 Record rcase := {
   rc_grid : rgrid; rc_cand : droplet; rc_vmin : option Q; rc_vmax : option Q; rc_adjust : bool;
@@ -300,10 +301,14 @@ Definition agree (c : rcase) : bool :=
     match prepare (rc_grid c) (rc_stats c) (rc_vmin c) (rc_vmax c) (rc_adjust c) (rc_cand c) with
     | inr p =>
         let n := if rc_adjust c then (length (p_x0 p) - 2)%nat else length (p_x0 p) in
+        (* index of the width entry among the free entries, when the width is the default *)
+        let wi := S (length (select (firstn (p_dim p) (p_free p)) (d_pos (p_drop p)))) in
+        let default_width := match d_width (p_drop p) with None => true | Some _ => false end in
+        let exact := fun i => Nat.ltb i n && negb (default_width && Nat.eqb i wi) in
         (if rc_called c then
-           agree_vec Qeq_bool close n (p_x0 p) (rc_x0 c)
-           && agree_vec (ext_agree true) (ext_agree false) n (p_lo p) (rc_lo c)
-           && agree_vec (ext_agree true) (ext_agree false) n (p_hi p) (rc_hi c)
+           agree_vec Qeq_bool close exact 0 (p_x0 p) (rc_x0 c)
+           && agree_vec (ext_agree true) (ext_agree false) exact 0 (p_lo p) (rc_lo c)
+           && agree_vec (ext_agree true) (ext_agree false) exact 0 (p_hi p) (rc_hi c)
          else true)
         && (Z.eqb (rc_iter c) (-1) || Z.eqb (rc_iter c) (dilation_passed (dilation_iterations (p_width p))))
     | inl _ => negb (rc_called c)
